@@ -56,7 +56,7 @@ def coded(prefix, num, observed, machine, what):
         raise Bad('%s code reported wrongly' % what, code=hex(num), observed=observed, machine=machine)
 
 
-def gen_image(rng, big=None, plain=False):
+def gen_image(rng, big=None, plain=False, big_variant=0):
     cls = rng.choice([32, 64])
     le = rng.random() < 0.5
     r = rng.random()
@@ -106,7 +106,9 @@ def gen_image(rng, big=None, plain=False):
         kw['sections'] = secs + [elfgen.Sec('s%d' % (i % 7), 1, data=b'') for i in range(0xff00 + rng.randrange(3) - len(secs))]
         kw['shstr_at'] = None        # string table index >= 0xff00 as well
     elif big == 'segments':
-        kw['segments'] = segs + [elfgen.Seg(type=1, offset=i, filesz=0) for i in range(0xffff + rng.randrange(3) - len(segs))]
+        # both sides of the escape value: 0xff00 and 0xfffe are ordinary counts, 0xffff and above use section 0
+        total = [0xfffe, 0xffff, 0xff00, 0x10000, 0x10001][big_variant % 5]
+        kw['segments'] = segs + [elfgen.Seg(type=1, offset=i, filesz=0) for i in range(total - len(segs))]
     img, info = elfgen.build(**kw)
     info['kw'] = kw
     return img, info
@@ -227,7 +229,7 @@ def run_case(kind, idx, rng, sh):
     big = None
     if kind == 'big':
         big = 'sections' if idx % 2 == 0 else 'segments'
-    img, info = gen_image(rng, big)
+    img, info = gen_image(rng, big, big_variant=idx // 2 + (sh.seed if sh.tier == 'quick' else 0))
     kw = info['kw']
     try:
         n = len(info['secs'])
@@ -245,7 +247,7 @@ def run_case(kind, idx, rng, sh):
 # ---- cross-validation of the image writer against llvm-readobj (a third implementation)
 import re
 from .. import oracles
-KINDS['big'] = (2, 6, 1)
+KINDS['big'] = (4, 10, 1)
 KINDS['xval'] = (32, 320, 2)
 _base_run_case = run_case
 _SEC = re.compile(r'Section \{\s+Index: (\d+)\s+Name: .*?\((\d+)\)\s+Type: .*?\((0x[0-9A-Fa-f]+)\)\s+Flags \[ \((0x[0-9A-Fa-f]+)\)'
